@@ -38,7 +38,7 @@ RULE = (
     "followed (one slot later, or in the same instant as the last element) by completion, error or nothing; non-trivial = at least two sources (one for single-source "
     "tuples) notify at or after the subscription instant and the reference output is not empty; distinct = the whole case tuple"
 )
-BUDGET = {"quick": 180.0, "thorough": 2400.0}
+BUDGET = {"quick": 300.0, "thorough": 2400.0}
 
 SUB = vt.SUB
 HORIZON = vt.HORIZON
